@@ -126,7 +126,7 @@ Definition ok_local (p l : str) : bool :=
 
 (** an IRI that ends up as a class / node / predicate identifier *)
 Definition ok_iri (i : str) : bool :=
-  word i && negb (str_eqb i []) && negb (has_corners i) && negb (prefixb (Str "_:") i).
+  word i && negb (str_eqb i []) && negb (prefixb (Str "<") i) && negb (prefixb (Str "_:") i).
 
 Definition wf_node (n : node) : bool :=
   match nk n with
@@ -219,12 +219,12 @@ Definition C10_dom (tg : target) (orc : oracles) (G : graph) : bool :=
   | None => true
   | Some l => negb (Nat.eqb (List.length l) 0) && forallb (ok_ref ns pd true) l
   end &&
-  (* all_classes_mode: every object of the instantiation property is a node, and none looks like a label key *)
+  (* all_classes_mode: every object of the instantiation property is an IRI, and none looks like a label key *)
   (if t_all tg
    then match resolve ns (t_tau tg) with
         | Some tau => forallb (fun x => match x with
-                                        | ON n => negb (prefixb (Str "<") (nid n))
-                                        | OL _ _ => false
+                                        | ON (Node KIri c) => negb (prefixb (Str "<") c)
+                                        | _ => false
                                         end) (tau_objects G tau)
         | None => false
         end
